@@ -244,3 +244,29 @@ func (s *SwapService) VerifLockSwap(swapId, channelId string) error {
 	fsm := &SwapStateMachine{SwapId: id, Data: &SwapData{SwapOutRequest: &SwapOutRequestMessage{SwapId: id, Scid: channelId}}}
 	return s.lockSwap(swapId, channelId, fsm)
 }
+
+// VerifEventNames maps the Go constant names of the events to their string values.
+func VerifEventNames() map[string]string {
+	return map[string]string{
+		"NoOp":                                   string(NoOp),
+		"Event_Done":                             string(Event_Done),
+		"Event_OnRetry":                          string(Event_OnRetry),
+		"Event_ActionFailed":                     string(Event_ActionFailed),
+		"Event_ActionSucceeded":                  string(Event_ActionSucceeded),
+		"Event_OnInvalid_Message":                string(Event_OnInvalid_Message),
+		"Event_OnTimeout":                        string(Event_OnTimeout),
+		"Event_OnCancelReceived":                 string(Event_OnCancelReceived),
+		"Event_OnCoopCloseReceived":              string(Event_OnCoopCloseReceived),
+		"Event_OnCsvPassed":                      string(Event_OnCsvPassed),
+		"Event_OnClaimInvoicePaid":               string(Event_OnClaimInvoicePaid),
+		"Event_OnFeeInvoicePaid":                 string(Event_OnFeeInvoicePaid),
+		"Event_OnFeeInvoiceReceived":             string(Event_OnFeeInvoiceReceived),
+		"Event_OnTxOpenedMessage":                string(Event_OnTxOpenedMessage),
+		"Event_OnTxConfirmed":                    string(Event_OnTxConfirmed),
+		"Event_OnSwapOutStarted":                 string(Event_OnSwapOutStarted),
+		"Event_OnSwapOutRequestReceived":         string(Event_OnSwapOutRequestReceived),
+		"Event_SwapInSender_OnSwapInRequested":   string(Event_SwapInSender_OnSwapInRequested),
+		"Event_SwapInSender_OnAgreementReceived": string(Event_SwapInSender_OnAgreementReceived),
+		"Event_SwapInReceiver_OnRequestReceived": string(Event_SwapInReceiver_OnRequestReceived),
+	}
+}
